@@ -27,9 +27,13 @@ def build_case(cid, rng):
                         ("&(dyn ::core::any::Any + ::core::marker::Sync)", "(s.type_id() == ::core::any::TypeId::of::<u8>()) as u64", "&7u8"),
                         ("&mut (dyn ::core::iter::Iterator<Item = u64> + ::core::marker::Send)", "s.next().unwrap_or(0)", "&mut (1u64..1000)"),
                         # function pointers over references (higher-ranked signatures)
-                        ("fn(&u64) -> u64", "s(&2)", "|v: &u64| *v + 1"), ("for<'v> fn(&'v u64) -> &'v u64", "*s(&3)", "|v: &u64| v")])
+                        ("fn(&u64) -> u64", "s(&2)", "|v: &u64| *v + 1"), ("for<'v> fn(&'v u64) -> &'v u64", "*s(&3)", "|v: &u64| v"),
+                        # a callback taken as argument-position impl Trait: handed on by value through every link (no `&dyn Fn` hop)
+                        ("impl Fn(u64) -> u64", "s(2)", "|v: u64| v + 1"), ("impl ::core::ops::Fn(u64) -> u64", "s(2)", "|v: u64| v + 1")])
     with_lt = bool(extra) and "'a" in extra[0]
     no_send = is_async and rng.random() < 0.25
+    if is_async and extra and extra[0].startswith("impl "):
+        no_send = True   # (a closure type that is not known to be Send: rustc's rule, not entrait's)
     G = "<'a>" if with_lt else ""
     SP = (", s: " + extra[0]) if extra else ""
     SA = ", s" if extra else ""
